@@ -544,6 +544,7 @@ def run_impl(case):
                     c = build_loop(case['loop'])
                     c.cleanup()
                     obs['wclean'] = _windows(c)
+                    obs['durclean'] = vlib.frac_json(c.duration)
                     return obs
                 singles = []
                 pt = build_pt(case['pt'], singles)
@@ -560,8 +561,14 @@ def run_impl(case):
                 if prog is None:
                     return {'none': True}
                 obs = {'dur': vlib.frac_json(prog.duration), 'ws': _windows(prog)}
+                # second observation point of the property: plotting.render(..., render_measurements=True)[2]
+                from qupulse.plotting import _render_loop
+                rm = [[n, vlib.frac_json(vlib.to_fraction(b)), vlib.frac_json(vlib.to_fraction(l))]
+                      for n, b, l in _render_loop(prog, render_measurements=True)[1]]
+                obs['wsr'] = sorted(rm, key=lambda w: (str(w[0]), F(w[1]), F(w[2])))
                 prog.cleanup()
                 obs['wsc'] = _windows(prog)
+                obs['durc'] = vlib.frac_json(prog.duration)
                 return obs
     except vlib.Timeout:
         return {'hang': True}
@@ -619,8 +626,8 @@ def to_coq(case, obs):
         return 'CCrash'
     if case['kind'] == 'loop':
         opt = lambda w: 'None' if w is None else '(Some %s)' % g_windows(w)
-        return '(CLoop %s %s %s %s %s)' % (g_loop(case['loop']), g_q(obs['dur']), g_windows(obs['ws']),
-                                           opt(obs['wrev']), opt(obs['wclean']))
+        return '(CLoop %s %s %s %s %s %s)' % (g_loop(case['loop']), g_q(obs['dur']), g_windows(obs['ws']),
+                                              opt(obs['wrev']), opt(obs['wclean']), g_q(obs['durclean']))
     env = vlib.glist(lambda kv: '(%s, %s)' % (vlib.gN(par_id(kv[0])), g_q(kv[1])), sorted(case['env'].items()))
     if case['mm'] is None:
         mm = '[]'
@@ -633,7 +640,7 @@ def to_coq(case, obs):
     elif 'none' in obs:
         o = 'ONone'
     else:
-        o = '(OProg %s %s %s)' % (g_q(obs['dur']), g_windows(obs['ws']), g_windows(obs['wsc']))
+        o = '(OProg %s %s %s %s)' % (g_q(obs['dur']), g_windows(obs['ws']), g_q(obs['durc']), g_windows(obs['wsc']))
     return '(CProg %s %s %s %s)' % (g_pt(case['pt']), env, mm, o)
 
 
@@ -674,6 +681,13 @@ def histogram_keys(case, obs):
 
 
 def classify(case, obs):
+    return None
+
+
+def py_spec(case, obs):
+    """the two observation points of the property report the same windows (the first one is judged in Coq)"""
+    if 'wsr' in obs and obs['wsr'] != obs['ws']:
+        return 'plotting.render reports other measurement windows than Loop.get_measurement_windows()'
     return None
 
 
